@@ -20,6 +20,7 @@ func Trunc8(r *big.Rat) *big.Rat {
 type priceEntry struct {
 	P   *big.Rat // exact price (no truncation anywhere)
 	Err *big.Rat // bound on |knut's truncated price - P|
+	Amb bool     // reachable through more than one chain and not declared directly against V
 }
 
 // PriceBook gives, per journal day, the exact price of each commodity in V
@@ -79,51 +80,91 @@ func NewPriceBook(j *gen.Journal, v string) *PriceBook {
 				adj[dc.com] = append(adj[dc.com], dc)
 				adj[dc.tgt] = append(adj[dc.tgt], dc)
 			}
-			cur = map[string]priceEntry{v: {big.NewRat(1, 1), new(big.Rat)}}
-			var walk func(u, from string)
-			walk = func(u, from string) {
+			cur = map[string]priceEntry{v: {P: big.NewRat(1, 1), Err: new(big.Rat)}}
+			// the component of V: is it a tree?
+			comp := map[string]bool{v: true}
+			edgesInComp := 0
+			stack := []string{v}
+			seenEdge := map[pair]bool{}
+			for len(stack) > 0 {
+				u := stack[len(stack)-1]
+				stack = stack[:len(stack)-1]
+				for _, dc := range adj[u] {
+					pr := norm(dc.com, dc.tgt)
+					if !seenEdge[pr] {
+						seenEdge[pr] = true
+						edgesInComp++
+					}
+					w := dc.com
+					if w == u {
+						w = dc.tgt
+					}
+					if !comp[w] {
+						comp[w] = true
+						stack = append(stack, w)
+					}
+				}
+			}
+			cyclic := edgesInComp != len(comp)-1
+			if cyclic {
+				pb.Forest = false
+			}
+			step := func(u, w string, dc decl, amb bool) {
+				pu := cur[u]
+				var e, eUpper, stepErr *big.Rat
+				if dc.com == w {
+					// 1 w = p u: direct
+					e = dc.p
+					eUpper = new(big.Rat).Abs(dc.p)
+					stepErr = new(big.Rat)
+				} else {
+					// 1 u = p w: w = 1/p u, stored truncated
+					e = new(big.Rat).Inv(dc.p)
+					eUpper = new(big.Rat).Add(new(big.Rat).Abs(e), Eps8)
+					stepErr = new(big.Rat).Mul(Eps8, new(big.Rat).Add(new(big.Rat).Abs(pu.P), pu.Err))
+				}
+				p := new(big.Rat).Mul(e, pu.P)
+				er := new(big.Rat).Set(Eps8)
+				er.Add(er, new(big.Rat).Mul(eUpper, pu.Err))
+				er.Add(er, stepErr)
+				cur[w] = priceEntry{P: p, Err: er, Amb: amb}
+			}
+			// breadth-first: commodities declared directly against V have an unambiguous
+			// price whatever else the graph contains; further ones only in a tree
+			queue := []string{v}
+			for len(queue) > 0 {
+				u := queue[0]
+				queue = queue[1:]
 				for _, dc := range adj[u] {
 					w := dc.com
 					if w == u {
 						w = dc.tgt
 					}
-					if w == from {
-						continue
-					}
 					if _, done := cur[w]; done {
-						pb.Forest = false
 						continue
 					}
-					pu := cur[u]
-					var e, eUpper, stepErr *big.Rat
-					if dc.com == w {
-						// 1 w = p u: direct
-						e = dc.p
-						eUpper = new(big.Rat).Abs(dc.p)
-						stepErr = new(big.Rat)
-					} else {
-						// 1 u = p w: w = 1/p u, stored truncated
-						e = new(big.Rat).Inv(dc.p)
-						eUpper = new(big.Rat).Add(new(big.Rat).Abs(e), Eps8)
-						stepErr = new(big.Rat).Mul(Eps8, new(big.Rat).Add(new(big.Rat).Abs(pu.P), pu.Err))
-					}
-					p := new(big.Rat).Mul(e, pu.P)
-					er := new(big.Rat).Set(Eps8)
-					er.Add(er, new(big.Rat).Mul(eUpper, pu.Err))
-					er.Add(er, stepErr)
-					cur[w] = priceEntry{p, er}
-					walk(w, u)
+					step(u, w, dc, cyclic && u != v)
+					queue = append(queue, w)
 				}
 			}
-			walk(v, "")
 		}
 		tbl := cur
 		if tbl == nil {
-			tbl = map[string]priceEntry{v: {big.NewRat(1, 1), new(big.Rat)}}
+			tbl = map[string]priceEntry{v: {P: big.NewRat(1, 1), Err: new(big.Rat)}}
 		}
 		pb.tables = append(pb.tables, tbl)
 	}
 	return pb
+}
+
+// Ambiguous reports whether the price of com on the last journal day <= day
+// could legitimately be derived along more than one chain.
+func (pb *PriceBook) Ambiguous(day cal.Day, com string) bool {
+	i := sort.Search(len(pb.Days), func(i int) bool { return pb.Days[i] > day }) - 1
+	if i < 0 {
+		return false
+	}
+	return pb.tables[i][com].Amb
 }
 
 // At returns the price of com on the last journal day <= day.
